@@ -31,6 +31,7 @@ adversaries.
  5 CONFORMANCE  (ParallelTrace: CSpec, NEW protocol) every observed step must be the step the
    model predicts with the same successor state; reported as a percentage, not a verdict.
 """
+import itertools
 import json
 import os
 import re
@@ -53,6 +54,15 @@ OLDINIT = dict(name="mutex+old-init", mutex=True, locked=False, bare=False)
 BARE_NEW = dict(name="bare-new", mutex=False, locked=True, bare=True)
 BARE_OLD = dict(name="bare-old", mutex=False, locked=False, bare=True)
 TF = {True: "TRUE", False: "FALSE"}
+
+
+_WD = itertools.count()
+
+
+def unique_workdir(ctx):
+    """TLC runs are started from several threads: harness.tlc.workdir names a directory by pid and
+    millisecond, so every call here gets its own tag"""
+    return ctx.workdir(f"C23-{next(_WD)}")
 
 
 def cfg_text(spec, proto, nprocs, crash, pre, body, addrs=None):
@@ -88,7 +98,7 @@ def depth_of(res):
 # ---- TLC runs -----------------------------------------------------------------------------
 def tlc_mc(ctx, proto, nprocs, crash, pre, design, workers=4):
     """the whole protocol model with its structural invariants; design: also the property"""
-    wd = ctx.workdir()
+    wd = unique_workdir(ctx)
     invs = "TypeOK LockSound MutexSound" + (" Property" if design else "")
     T.write_cfg(wd, "mc.cfg", cfg_text("PSpec", proto, nprocs, crash, pre, "INVARIANTS " + invs))
     res = T.require_clean(T.run(wd, "MC_Parallel", "mc.cfg", workers=workers, timeout=2400), "MC_Parallel")
@@ -122,7 +132,7 @@ def parse_classes(out):
 
 def tlc_classes(ctx, proto, nprocs, crash, pre, workers=1):
     """shortest violating interleaving per <<violated invariants, last step>>"""
-    wd = ctx.workdir()
+    wd = unique_workdir(ctx)
     T.write_cfg(wd, "k.cfg", cfg_text("CutSpec", proto, nprocs, crash, pre, "INVARIANT NewClass\nALIAS Alias"
                                       + ("\nCONSTRAINT StartOrder" if nprocs > 2 else "")))
     res = T.require_clean(T.run(wd, "MC_Parallel", "k.cfg", workers=workers, timeout=3000, extra=("-continue",)),
@@ -140,7 +150,7 @@ def tlc_classes(ctx, proto, nprocs, crash, pre, workers=1):
 
 
 def tlc_scripts(ctx, proto, nprocs, crash, pre, addrs=None, simulate=None, seed=None):
-    wd = ctx.workdir()
+    wd = unique_workdir(ctx)
     T.write_cfg(wd, "s.cfg", cfg_text("SSpec", proto, nprocs, crash, pre, "INVARIANT Emit", addrs=addrs))
     res = T.require_clean(T.run(wd, "ParallelScripts", "s.cfg", workers=1, timeout=1500,
                                 simulate=simulate, depth=250 if simulate else None, seed=seed),
@@ -225,7 +235,7 @@ def text(ev):
 # ---- TLC judges ----------------------------------------------------------------------------
 def validate(ctx, traces, spec, bare=False, chunk=1500):
     """batched run of ParallelTrace; returns per trace (matched, length, {event: names}, [handle events])"""
-    wd = ctx.workdir()
+    wd = unique_workdir(ctx)
     body = "CONSTRAINT Progress\nPOSTCONDITION Post" + ("\nINVARIANT Observe" if spec == "VSpec" else "")
     T.write_cfg(wd, "t.cfg", f"""SPECIFICATION {spec}
 CONSTANTS Procs = {{"p1", "p2", "p3"}}
